@@ -128,6 +128,59 @@ theorem C05_cycle_starts_the_selection (s : Sched) (hn : s.noInflight = true)
   intro x hx
   simp [noInflight_spec hn (select_spec hx).1, hl x hx]
 
+/-- the selected uploads a cycle passes over: an earlier task of theirs is still running
+(`_is_running(upload._transfer_task)`, manager.py:580-590) -/
+def passedOver (s : Sched) : List Xfer := s.select.filter (fun x => x.inflight || x.lingering)
+
+/-- A passed-over upload uses up its slot: the tasks a cycle creates and the uploads it passes over are, together,
+`uploads[:free_upload_slots]` — the slice is taken BEFORE the uploads with a running task are skipped, the loop
+does not go on to the next candidate in line. -/
+theorem C05_passed_over_uses_its_slot (s : Sched) :
+    s.started.length + (passedOver s).length = s.select.length ∧
+      s.started.length + (passedOver s).length ≤ s.slots - s.procUploads := by
+  have h : ∀ l : List Xfer, (l.filter (fun x => !x.inflight && !x.lingering)).length
+      + (l.filter (fun x => x.inflight || x.lingering)).length = l.length := by
+    intro l
+    induction l with
+    | nil => rfl
+    | cons a l ih =>
+      simp only [filter_cons]
+      cases a.inflight <;> cases a.lingering <;> simp <;> omega
+  have h1 : s.started.length + (passedOver s).length = s.select.length := h s.select
+  exact ⟨h1, h1 ▸ select_length_le s⟩
+
+/-- No slot goes past a passed-over upload: if a cycle creates a task for `t` and an eligible upload `t'` ranks
+strictly higher, then `t'` is in the slice too — it got a task as well or it was passed over, and then it is marked
+(`inflight`: its task will record the decision; `watched`: the cycle asked to be run again when the lingering task
+ends) in the state the cycle leaves behind.  Never is a task created for a lower-ranking upload INSTEAD. -/
+theorem C05_no_slot_goes_past_a_passed_over_upload (s : Sched) (t t' : Xfer) (ht : t ∈ s.started)
+    (ht' : t' ∈ s.eligible) (hr : s.rankOf t < s.rankOf t') :
+    t' ∈ s.select ∧ markSel s.select t' ∈ s.start.xs ∧
+      ((markSel s.select t').inflight = true ∨ (markSel s.select t').watched = true) := by
+  have hsel : t' ∈ s.select := by
+    apply Classical.byContradiction
+    intro hn
+    have := C05_priority s t t' (mem_filter.mp ht).1 ht' hn
+    omega
+  refine ⟨hsel, ?_, ?_⟩
+  · exact mem_map.mpr ⟨t', (select_spec hsel).1, rfl⟩
+  · unfold markSel
+    rw [if_pos hsel]
+    cases hl : t'.lingering <;> simp
+
+/-- The same at the level of the property's classes: a user of a strictly higher class (privileged > friend >
+online/away > unknown) whose upload is eligible never loses the slot to the user a task is created for. -/
+theorem C05_higher_class_keeps_its_slot (s : Sched) (t t' : Xfer) (ht : t ∈ s.started) (ht' : t' ∈ s.eligible)
+    (hc : classLt (s.users t.user) (s.users t'.user)) :
+    t' ∈ s.started ∨
+      (t' ∈ passedOver s ∧ ((markSel s.select t').inflight = true ∨ (markSel s.select t').watched = true)) := by
+  have hr : s.rankOf t < s.rankOf t' := (C05_rank_is_class_order _ _).mpr hc
+  obtain ⟨hsel, _, hm⟩ := C05_no_slot_goes_past_a_passed_over_upload s t t' ht ht' hr
+  by_cases hp : (t'.inflight || t'.lingering) = true
+  · exact Or.inr ⟨mem_filter.mpr ⟨hsel, hp⟩, hm⟩
+  · refine Or.inl (mem_filter.mpr ⟨hsel, ?_⟩)
+    cases hi : t'.inflight <;> cases hl : t'.lingering <;> simp_all
+
 /-! ## all schedules -/
 
 /-- In every state a timely schedule reaches no user holds two slots: no two uploads of one user that are
@@ -661,6 +714,20 @@ example :
       -- the report fails while the upload is still FAILED: it is offered again
       (runFrom { slots := 1 } [.addUpload 0, .cycle, .record 0, .started 0, .breakX 0, .noticeEnd 0 false]).xs.map (·.st)
         = [.queued] := by decide
+
+/-- one slot; the upload of privileged user 0 breaks, the report hangs, user 0 queues the file again and is passed
+over; user 1 asks for a file: the free slot stays user 0's (no task for user 1), and when the report ends the cycle
+it requested starts user 0's upload -/
+example :
+    let ops : List Op := [.privList [0], .addUpload 0, .cycle, .record 0, .started 0, .breakX 0, .cycle, .requeue 0,
+      .cycle, .addUpload 1, .cycle]
+    let s := runFrom { slots := 1 } ops
+    Timely { slots := 1 } ops ∧
+      s.xs.map (fun x => (x.st, x.inflight, x.lingering, x.watched)) =
+        [(.queued, false, true, true), (.queued, false, false, false)] ∧
+      s.select.map (·.id) = [0] ∧ s.started = [] ∧ (passedOver s).map (·.id) = [0] ∧ s.eligible.map (·.id) = [0, 1] ∧
+      (step (step s (.noticeEnd 0 true)) .cycle).xs.map (fun x => (x.st, x.inflight)) =
+        [(.queued, true), (.queued, false)] := by decide
 
 /-- the limit is lowered below the number of running uploads: nothing starts until it fits -/
 example :
